@@ -179,6 +179,9 @@ impl Report {
             for e in &self.machinery_errors {
                 eprintln!("MACHINERY-ERROR: {}", e);
             }
+            for v in &unlisted {
+                eprintln!("  (found before the machinery error, not reported as a verdict) {} :: {}", v.fingerprint, first_line(&v.detail));
+            }
             return 2;
         }
         if unlisted.is_empty() {
